@@ -7,6 +7,7 @@ import (
 	"fmt"
 	"go/ast"
 	"go/constant"
+	"go/parser"
 	"go/token"
 	"go/types"
 	"regexp/syntax"
@@ -57,6 +58,12 @@ func (e *Env) memTerm(m MemRef) string {
 }
 
 func sel(arr, idx string) string { return "(select " + arr + " " + idx + ")" }
+
+// eidx is the absolute index of element i of a slice with offset off. It is an SMT
+// function (eidx off i) = (bvadd off i): a macro in quantifier-free scripts, an
+// uninterpreted function with a triggering axiom in quantified ones (so that
+// E-matching on slice elements does not depend on how solvers normalise bvadd).
+func eidx(off, i string) string { return "(eidx " + off + " " + i + ")" }
 func sto(arr, idx, v string) string {
 	return "(store " + arr + " " + idx + " " + v + ")"
 }
@@ -98,12 +105,66 @@ func or(xs ...string) string {
 func not(x string) string { return "(not " + x + ")" }
 
 func (e *Env) evalType(x ast.Expr) types.Type {
-	s := types.ExprString(x)
-	tv, err := types.Eval(e.w.fset, e.pkg, token.NoPos, s)
-	if err != nil || !tv.IsType() {
-		panic(unsupported(fmt.Sprintf("cannot evaluate type %q in package %s: %v", s, e.pkg.Name(), err)))
+	return e.resolveType(x)
+}
+
+// resolveType resolves a type expression in the package of the contract; qualified
+// identifiers refer to the packages imported by any file of that package.
+func (e *Env) resolveType(x ast.Expr) types.Type {
+	switch x := x.(type) {
+	case *ast.ParenExpr:
+		return e.resolveType(x.X)
+	case *ast.StarExpr:
+		return types.NewPointer(e.resolveType(x.X))
+	case *ast.ArrayType:
+		if x.Len == nil {
+			return types.NewSlice(e.resolveType(x.Elt))
+		}
+	case *ast.MapType:
+		return types.NewMap(e.resolveType(x.Key), e.resolveType(x.Value))
+	case *ast.InterfaceType:
+		if x.Methods == nil || len(x.Methods.List) == 0 {
+			return types.NewInterfaceType(nil, nil)
+		}
+	case *ast.Ident:
+		if x.Name == "any" {
+			return types.NewInterfaceType(nil, nil)
+		}
+		for _, p := range []*types.Package{e.pkg, e.w.rootPkg} {
+			if p == nil {
+				continue
+			}
+			if tn, ok := p.Scope().Lookup(x.Name).(*types.TypeName); ok {
+				return tn.Type()
+			}
+		}
+		if tn, ok := types.Universe.Lookup(x.Name).(*types.TypeName); ok {
+			return tn.Type()
+		}
+	case *ast.SelectorExpr:
+		if id, ok := x.X.(*ast.Ident); ok {
+			ip := e.importedPkg(id.Name)
+			if ip == nil && e.w.rootPkg != nil {
+				n := *e
+				n.pkg = e.w.rootPkg
+				ip = n.importedPkg(id.Name)
+			}
+			if ip != nil {
+				if tn, ok := ip.Scope().Lookup(x.Sel.Name).(*types.TypeName); ok {
+					return tn.Type()
+				}
+			}
+		}
+	case *ast.IndexExpr:
+		g := e.resolveType(x.X)
+		if named, ok := g.(*types.Named); ok {
+			inst, err := types.Instantiate(nil, named, []types.Type{e.resolveType(x.Index)}, false)
+			if err == nil {
+				return inst
+			}
+		}
 	}
-	return tv.Type
+	panic(unsupported(fmt.Sprintf("cannot resolve type %q in package %s", types.ExprString(x), e.pkg.Name())))
 }
 
 func (e *Env) bool(x ast.Expr) string {
@@ -211,7 +272,7 @@ func (e *Env) tr(x ast.Expr, hint types.Type) Term {
 		case *types.Slice:
 			i := e.tr(x.Index, types.Typ[types.Int])
 			m := w.reg.elemMem(u.Elem())
-			return mkTerm(w, sel(sel(e.memTerm(m), "(s-arr "+b.S+")"), "(bvadd (s-off "+b.S+") "+i.S+")"), u.Elem())
+			return mkTerm(w, sel(sel(e.memTerm(m), "(s-arr "+b.S+")"), eidx("(s-off "+b.S+")", i.S)), u.Elem())
 		case *types.Map:
 			k := e.tr(x.Index, u.Key())
 			_, mv := w.reg.mapMems(u)
@@ -576,7 +637,7 @@ func (e *Env) call(x *ast.CallExpr, hint types.Type) Term {
 		e.depth--
 		rng := and("(bvsle "+lo.S+" "+vn+")", "(bvslt "+vn+" "+hi.S+")")
 		if name == "forall" {
-			return Term{fmt.Sprintf("(forall ((%s %s)) (=> %s %s))", vn, bv64, rng, body), "Bool", boolT}
+			return Term{fmt.Sprintf("(forall ((%s %s)) %s)", vn, bv64, withPatterns("(=> "+rng+" "+body+")", body, vn)), "Bool", boolT}
 		}
 		return Term{fmt.Sprintf("(exists ((%s %s)) (and %s %s))", vn, bv64, rng, body), "Bool", boolT}
 	case "forallT", "existsT": // forallT(x, Type, body): quantification over all values of a Go type
@@ -651,6 +712,28 @@ func (e *Env) call(x *ast.CallExpr, hint types.Type) Term {
 		k := e.tr(arg(1), nil)
 		return Term{sel(g.S, k.S), "Bool", boolT}
 	}
+	// uninterpreted function
+	if uf, ok := w.cs.UFuns[name]; ok {
+		if len(x.Args) != len(uf.Params) {
+			panic(unsupported(fmt.Sprintf("ufun %s: want %d args", name, len(uf.Params))))
+		}
+		var as, sorts []string
+		for i := range uf.Params {
+			pt := e.evalTypeStr(uf.PTypes[i])
+			a := e.tr(x.Args[i], pt)
+			if a.Sort != w.reg.sortOf(pt) {
+				panic(unsupported(fmt.Sprintf("ufun %s: argument %d has sort %s, want %s", name, i, a.Sort, w.reg.sortOf(pt))))
+			}
+			as = append(as, a.S)
+			sorts = append(sorts, w.reg.sortOf(pt))
+		}
+		rt := e.evalTypeStr(uf.RType)
+		w.reg.declareUF(name, sorts, w.reg.sortOf(rt))
+		if len(as) == 0 {
+			return mkTerm(w, "uf_"+name, rt)
+		}
+		return mkTerm(w, "(uf_"+name+" "+strings.Join(as, " ")+")", rt)
+	}
 	// spec function (macro expansion)
 	if sp, ok := w.cs.Specs[name]; ok {
 		if len(x.Args) != len(sp.Params) {
@@ -680,26 +763,112 @@ func (e *Env) call(x *ast.CallExpr, hint types.Type) Term {
 		return n.tr(sp.Body, rt)
 	}
 	// conversion T(x)
-	if tv, err := types.Eval(w.fset, e.pkg, token.NoPos, types.ExprString(x.Fun)); err == nil && tv.IsType() && len(x.Args) == 1 {
-		v := e.tr(x.Args[0], nil)
-		return w.convert(v, tv.Type)
+	if len(x.Args) == 1 {
+		var ct types.Type
+		func() {
+			defer func() {
+				if r := recover(); r != nil {
+					if _, ok := r.(unsupported); !ok {
+						panic(r)
+					}
+				}
+			}()
+			ct = e.resolveType(x.Fun)
+		}()
+		if ct != nil {
+			v := e.tr(x.Args[0], ct)
+			return w.convert(v, ct)
+		}
 	}
 	panic(unsupported("unknown function in contract: " + types.ExprString(x.Fun)))
 }
 
-func (e *Env) evalTypeStr(s string) types.Type {
-	tv, err := types.Eval(e.w.fset, e.pkg, token.NoPos, s)
-	if err != nil || !tv.IsType() {
-		// try the root package for shared spec types
-		if e.w.rootPkg != nil && e.pkg != e.w.rootPkg {
-			tv, err = types.Eval(e.w.fset, e.w.rootPkg, token.NoPos, s)
-			if err == nil && tv.IsType() {
-				return tv.Type
+// withPatterns annotates a quantifier body with one single-term pattern per distinct
+// (eidx _ <var>) / (uf_* ... <var> ...) subterm that mentions the bound variable directly.
+func withPatterns(full, body, v string) string {
+	seen := map[string]bool{}
+	var pats []string
+	for _, head := range []string{"(eidx ", "(uf_"} {
+		for i := 0; i+len(head) <= len(body); i++ {
+			if body[i:i+len(head)] != head {
+				continue
+			}
+			// matching paren
+			d, j := 0, i
+			for ; j < len(body); j++ {
+				if body[j] == '(' {
+					d++
+				} else if body[j] == ')' {
+					d--
+					if d == 0 {
+						break
+					}
+				}
+			}
+			if j >= len(body) {
+				break
+			}
+			t := body[i : j+1]
+			if !containsToken(t, v) || seen[t] {
+				continue
+			}
+			// the bound variable must be a direct argument (not under arithmetic)
+			if !directArg(t, v) {
+				continue
+			}
+			seen[t] = true
+			pats = append(pats, t)
+		}
+	}
+	if len(pats) == 0 {
+		return full
+	}
+	var b strings.Builder
+	b.WriteString("(! " + full)
+	for _, p := range pats {
+		b.WriteString(" :pattern (" + p + ")")
+	}
+	b.WriteString(")")
+	return b.String()
+}
+
+func containsToken(t, v string) bool {
+	for i := 0; i+len(v) <= len(t); i++ {
+		if t[i:i+len(v)] == v {
+			pre := i == 0 || strings.ContainsRune(" ()", rune(t[i-1]))
+			post := i+len(v) == len(t) || strings.ContainsRune(" ()", rune(t[i+len(v)]))
+			if pre && post {
+				return true
 			}
 		}
-		panic(unsupported(fmt.Sprintf("cannot evaluate type %q: %v", s, err)))
 	}
-	return tv.Type
+	return false
+}
+
+// directArg: v occurs as a top-level argument of the application t.
+func directArg(t, v string) bool {
+	d := 0
+	for i := 0; i < len(t); i++ {
+		switch t[i] {
+		case '(':
+			d++
+		case ')':
+			d--
+		default:
+			if d == 1 && i+len(v) <= len(t) && t[i:i+len(v)] == v && strings.ContainsRune(" ()", rune(t[i-1])) && (i+len(v) == len(t) || strings.ContainsRune(" ()", rune(t[i+len(v)]))) {
+				return true
+			}
+		}
+	}
+	return false
+}
+
+func (e *Env) evalTypeStr(s string) types.Type {
+	x, err := parser.ParseExpr(s)
+	if err != nil {
+		panic(unsupported(fmt.Sprintf("cannot parse type %q: %v", s, err)))
+	}
+	return e.resolveType(x)
 }
 
 func (w *World) convert(v Term, to types.Type) Term {
